@@ -1,6 +1,7 @@
 /* C05 native driver: the real HLLCRiemannSolver against an independently written textbook HLLC flux
  * (Toro 2009, eqs. 10.38/10.39, with the wave-speed estimates the code documents), and the mirror-state
  * (reflecting wall) clause. Used as a differential check on every run and to replay counterexamples. */
+#include "ExactRiemannSolver.hpp"
 #include "HLLCRiemannSolver.hpp"
 #include "cm_replay.hpp"
 #include <algorithm>
@@ -62,6 +63,37 @@ static int mirror(double g, double rho, double v, double P, const char *origin) 
   return 0;
 }
 
+/* gas next to vacuum: the problem and its mirror image (states exchanged, velocities and normal reversed) must give
+ * mirror-image fluxes: mass and energy flux negated, normal momentum flux equal */
+template <class Solver> static int vacuum_mirror(const Solver &s, const char *name, double g, double rho, double u, double P, const char *origin) {
+  double m1 = 0., E1 = 0., m2 = 0., E2 = 0.;
+  CoordinateVector<> p1, p2, n(1., 0., 0.);
+  /* gas on the left moving with +u, vacuum on the right */
+  s.solve_for_flux(rho, CoordinateVector<>(u, 0., 0.), P, 0., CoordinateVector<>(0.), 0., m1, p1, E1, n);
+  /* mirror image: vacuum on the left, gas on the right moving with -u */
+  s.solve_for_flux(0., CoordinateVector<>(0.), 0., rho, CoordinateVector<>(-u, 0., 0.), P, m2, p2, E2, n);
+  const double a = std::sqrt(g * P / rho), sc = rho * (std::abs(u) + a);
+  if (std::abs(m1 + m2) > 1.e-10 * sc || std::abs(p1.x() - p2.x()) > 1.e-10 * (sc * (std::abs(u) + a) + P) || std::abs(E1 + E2) > 1.e-10 * (sc * (std::abs(u) + a) + P) * (std::abs(u) + a)) {
+    std::printf("REPRODUCED (%s): real %s(gamma=%g): gas rho=%g, P=%g moving with u=%g towards/away from vacuum: flux with the vacuum on the right = (%.10g, %.10g, %.10g), "
+                "mirror-image problem (vacuum on the left, gas moving with %g) = (%.10g, %.10g, %.10g) - not mirror images (mass/energy flux should be negated, momentum flux equal)\n",
+                origin, name, g, rho, P, u, m1, p1.x(), E1, -u, m2, p2.x(), E2);
+    return 1;
+  }
+  return 0;
+}
+
+static int vacuum_scenarios(const char *origin) {
+  int bad = 0;
+  const double g = 5. / 3.;
+  HLLCRiemannSolver h(g);
+  ExactRiemannSolver e(g);
+  for (double u : {0., 0.4, -0.4, 1.0, -2.5}) {
+    if (!bad) bad |= vacuum_mirror(h, "HLLCRiemannSolver", g, 1., u, 1., origin);
+    if (!bad) bad |= vacuum_mirror(e, "ExactRiemannSolver", g, 1., u, 1., origin);
+  }
+  return bad;
+}
+
 static int fidelity(uint64_t seed, long n) {
   CMRng rng(seed);
   long cases = 0;
@@ -73,6 +105,7 @@ static int fidelity(uint64_t seed, long n) {
     CM_FID_CHECK(compare(g, rhoL, vL, PL, rhoR, vR, PR, "differential check", true) == 0, "HLLC flux vs textbook HLLC, case %ld", cases);
     ++cases;
   }
+  CM_FID_CHECK(vacuum_scenarios("differential check") == 0, "vacuum mirror scenarios%s", "");
   std::printf("FIDELITY OK cases=%ld\n", cases);
   return 0;
 }
@@ -82,6 +115,11 @@ static int replay(const char *path) {
   if (!in.load(path)) return 2;
   int bad = 0;
   const double g = 5. / 3.;
+  if (in.job.find("vacuum") != std::string::npos) {
+    bad = vacuum_scenarios("native boundary search");
+    if (!bad) std::printf("NOT-REPRODUCED\n");
+    return bad;
+  }
   if (in.has("in_rhoL") && in.has("in_PL") && in.has("in_rhoR") && in.has("in_PR") && in.has("in_vL") && in.has("in_vR")) {
     const double rhoL = in.f64("in_rhoL"), PL = in.f64("in_PL"), rhoR = in.f64("in_rhoR"), PR = in.f64("in_PR"), vL = in.f64("in_vL"), vR = in.f64("in_vR");
     if (rhoL > 0. && PL > 0. && rhoR > 0. && PR > 0.) {
